@@ -8,8 +8,36 @@ open Irismod Irismod.Sdk Irismod.Farm Irismod.Spec Irismod.Spec.C05 Irismod.Prop
 #print axioms inv_step
 #print axioms module_account_run
 #print axioms principal_covered_run
+#print axioms cp_inv_init
+#print axioms cp_inv_step
+#print axioms cp_inv_run
+#print axioms escrow_account_run
+#print axioms gov_account_run
+#print axioms escrow_tables_run
+#print axioms community_pool_backed_run
+#print axioms community_pool_lockstep
+#print axioms community_pool_lockstep_run
 #print axioms withdraw_can_fail
 #print axioms unstake_ok_partial
 -- non-vacuity: the F-farm-1 history up to A1's harvest reaches a state with two
 -- farmers of positive stake whose stakes add up to the pool total, and A1 (whom the collector can pay) can withdraw
 #eval s!"nonvacuous {decide (stakedSum (run w1Genesis (w1Ops.take 5)) "farm-1" = 2) && decide (lockedOf (run w1Genesis (w1Ops.take 5)) "farm-1" = 2) && isOkE (step (run w1Genesis (w1Ops.take 6)) (.unstake "A1" "farm-1" "lpt-1" 1)) && (moduleAccountDiffs (run w1Genesis w1Ops)).isEmpty && budgetOkPool ((getPool (run w1Genesis w1Ops) "farm-1").getD default) && (moduleAccountDiffs (run w2Genesis w2Ops)).isEmpty}"
+
+-- non-vacuity of (e): in the community-pool history w3, after both submissions the escrow collector holds 1200 btc + 50 eth
+-- for two escrow infos and gov 10100000 stake; after the pass and the failed deposit both infos are gone, the pool
+-- farm-1 is owned by the distribution module account with the escrowed budget; the community pool is 4000 btc while
+-- the farm runs and 4000 + (1000 − 500 released) btc + 0 eth after its end; every monitor clause holds at every step
+#eval s!"nonvacuous {
+  let s2 := run w3Genesis (w3Ops.take 3)
+  let s5 := run w3Genesis (w3Ops.take 5)
+  let s7 := run w3Genesis (w3Ops.take 7)
+  let s9 := run w3Genesis w3Ops
+  decide (s2.bank.balOf escrowAcc "btc" = 1200) && decide (s2.bank.balOf escrowAcc "eth" = 50) && decide (s2.cp.escrow.length = 2) &&
+  decide (s2.bank.balOf govAcc "stake" = 10100000) && (escrowAccountDiffs s2).isEmpty && govAccountB s2 && tablesB s2 &&
+  decide (s5.cp.escrow.length = 0) && decide (s5.bank.balOf escrowAcc "btc" = 0) && decide (s5.bank.balOf govAcc "stake" = 0) &&
+  (((getPool s5 "farm-1").map fun p => (p.creator, p.editable, p.start, p.endH, p.rules.map fun r => (r.denom, r.total))) ==
+     some ("distr", false, 10, 60, [("btc", 1000), ("eth", 50)])) &&
+  decide (cpoolOf s5 "btc" = 4000 * decUnit) && decide (s5.bank.balOf distrAcc "btc" = 4000) &&
+  decide (cpoolOf s7 "btc" = 4500 * decUnit) && decide (s7.bank.balOf distrAcc "btc" = 4500) && decide (s7.bank.balOf distrAcc "eth" = 0) &&
+  (moduleAccountDiffs s7).isEmpty && (backedDiffs s7).isEmpty && (lockDiffs w3Genesis s7).isEmpty && tablesB s7 &&
+  sameObserved s7 s9 && sameCp s7 s9}"
